@@ -405,6 +405,109 @@ def shutdown_cycles(pid, tier, seed):
     return r
 
 
+def startup_cycle(n, seed, binary):
+    """start the collector with the shipped ipfix.elements installed in its configuration directory while exporters are
+    already sending NetFlow v9 and IPFIX (templates + data): it must come up, stay up and stop cleanly (C20: both load
+    paths; C01: no datagram terminates the process)"""
+    import threading
+    rng = random.Random(seed * 7919 + n)
+    wdir = os.path.join(C.WORK, "e2e-start-%d-%d-%d" % (os.getpid(), seed, n))
+    shutil.rmtree(wdir, ignore_errors=True)
+    os.makedirs(wdir)
+    installed = n % 4 != 3            # three start-ups in four with the file present, one without
+    if installed:
+        shutil.copy(os.path.join(C.REPO, "scripts", "ipfix.elements"), os.path.join(wdir, "ipfix.elements"))
+    vf = Vflow(wdir, free_ports(5), binary)
+    sample = {"elements_file": installed}
+    stop = threading.Event()
+    sent = [0]
+
+    def blast():
+        s = sender(2 + rng.randrange(5))
+        fields = [(8, 4), (12, 4), (1, 8), (2, 8)]
+        tpl9 = v9_msg([tpl_set("nf9", 300, fields)], 1)
+        tpl10 = ipfix_msg([tpl_set("ipfix", 300, fields)], 1)
+        k = 0
+        while not stop.is_set():
+            try:
+                p = vf.ports                       # a retry of the start picks fresh ports
+                if k % 50 == 0:
+                    s.sendto(tpl9, ("127.0.0.1", p[3]))
+                    s.sendto(tpl10, ("127.0.0.1", p[0]))
+                s.sendto(v9_msg([data_set(300, fields, rng, 3)], k), ("127.0.0.1", p[3]))
+                s.sendto(ipfix_msg([data_set(300, fields, rng, 3)], k), ("127.0.0.1", p[0]))
+                sent[0] += 2
+            except OSError:
+                pass                               # nothing listens yet (ICMP port unreachable): keep knocking
+            k += 1
+        s.close()
+    th = threading.Thread(target=blast)
+    th.start()
+    try:
+        st = vf.start()
+        if st is True:
+            time.sleep(0.4)                        # traffic keeps flowing after the sockets are bound
+            alive = vf.proc.poll() is None
+        stop.set()
+        th.join()
+        sample["datagrams_sent"] = sent[0]
+        if st == "crash" or (st is True and not alive):
+            lg = vf.log()
+            i = max(lg.find("DATA RACE"), lg.find("fatal error"), lg.find("panic:"))
+            return "start-crashed", "fail:startup the collector died / raced while starting under traffic (ipfix.elements %s): %s" % (
+                "installed" if installed else "absent", lg[max(0, i - 20):i + 900].replace("\n", " | ")), sample
+        if not st:
+            return "not-started", "", sample
+        # judged on what was logged while starting and decoding (the stop path has its own property, C15, and its
+        # non-atomic stop flag is a known benign race report): snapshot the log, then end the process without the stop path
+        log = vf.log()
+        vf.proc.kill()
+        vf.proc.wait()
+        vf.errf.close()
+        if any(w in log for w in ("panic:", "fatal error", "DATA RACE")):
+            i = max(log.find("DATA RACE"), log.find("fatal error"), log.find("panic:"))
+            return "raced", "fail:startup race / crash report after a start under traffic (ipfix.elements %s): %s" % (
+                "installed" if installed else "absent", log[max(0, i - 20):i + 900].replace("\n", " | ")), sample
+        sample["decoded"] = log.count('"DataSets":[[')
+        return "started=1 alive=1 clean=1", "ok", sample
+    finally:
+        stop.set()
+        if vf.proc and vf.proc.poll() is None:
+            vf.proc.kill()
+        shutil.rmtree(wdir, ignore_errors=True)
+
+
+def startup_cycles(pid, tier, seed):
+    r = E2EResult()
+    r.name = "e2e-startup"
+    # built with the race detector: the window in which an unsynchronised access kills the process ("concurrent map read
+    # and map write") is a few microseconds wide, the detector reports the same access pair whenever both occur
+    ok, binary, err = build_binary(race=True)
+    if not ok:
+        r.oracle_fail.append({"kind": "e2e-startup", "seed": seed, "session": ["build"], "verdict": "fail:build vflow binary does not build: " + err[-300:], "impl": ""})
+        r.summary = {"built": False}
+        return r
+    # one installed-file start-up in three shows the unsynchronised access on the unrepaired tree: 32 cycles miss it with p < 1e-4
+    n = 32 if tier == "quick" else 320
+    import concurrent.futures as cf
+    with cf.ThreadPoolExecutor(max_workers=6) as ex:
+        futs = [ex.submit(startup_cycle, i, seed, binary) for i in range(n)]
+        for i, f in enumerate(futs):
+            line, verdict, sample = f.result()
+            r.evaluations += 1
+            case = "startup-cycle %d seed %d %s" % (i, seed, json.dumps(sample))
+            r.stats[line] = r.stats.get(line, 0) + 1
+            if verdict == "ok":
+                r.oracle_ok += 1
+                r.distinct.add(case)
+            elif verdict.startswith("fail"):
+                r.oracle_fail.append({"kind": "e2e-startup", "seed": seed, "session": [case], "verdict": verdict, "impl": line})
+            if len(r.samples) < 3:
+                r.samples.append({"case": case, "impl": line})
+    r.summary = {"cycles": n, "ok": r.oracle_ok, "failed": len(r.oracle_fail), "distribution": r.stats}
+    return r
+
+
 if __name__ == "__main__":
     ok, binary, err = build_binary()
     print(ok, err[-300:])
